@@ -156,9 +156,7 @@ theorem sinceT_exec (fuel : Nat) (a b : Rat) (o : TimedSt α) (s : SinceSt α) (
           getLoc "self.andop" env' = .ok andop' ∧ GOnBin.BinRel "AndOperation" st'.2.2.2 andop' ∧
           getLoc "self.sample_left_buf" env' = .ok (.list lb') ∧ getLoc "self.sample_right_buf" env' = .ok (.list rb')
     | .error e =>
-        exec (callAt Gen.DenseOn.fns fuel 6) fuel Gen.DenseOn.SinceTimedOperation_update.body env0 = .error e ∨
-        (e = .type ∧ ∃ env', exec (callAt Gen.DenseOn.fns fuel 6) fuel Gen.DenseOn.SinceTimedOperation_update.body env0 =
-          .ok (env', .ret (.list [.nan]))) := by
+        exec (callAt Gen.DenseOn.fns fuel 6) fuel Gen.DenseOn.SinceTimedOperation_update.body env0 = .error e := by
   have ⟨st1, _, _, eo1, _⟩ := r_once
   have ⟨st2, eo2, _⟩ := r_since
   have ⟨st3, _, _, eo3, _⟩ := r_hist
@@ -207,7 +205,6 @@ theorem sinceT_exec (fuel : Nat) (a b : Rat) (o : TimedSt α) (s : SinceSt α) (
   cases h1 : timedUpdate ltW Val.ninf a b o sr with
   | error e =>
       intro hon
-      left
       apply exec_seq_err
       exact exec_mcall1_err _ fuel _ _ _ _ env2 (encSig sr) _ _ st1 e (by simp [evalE, a_sr]) a_once
         name_once_upd hon
@@ -238,7 +235,6 @@ theorem sinceT_exec (fuel : Nat) (a b : Rat) (o : TimedSt α) (s : SinceSt α) (
       cases h3 : timedUpdate gtW Val.pinf 0 a h out2 with
       | error e =>
           intro hhi
-          left
           apply exec_seq_err
           exact exec_mcall1_err _ fuel _ _ _ _ _ (encSig out2) _ _ st3 e (by simp [evalE]) (by simp [a_hist])
             name_hist_upd hhi
@@ -261,23 +257,10 @@ theorem sinceT_exec (fuel : Nat) (a b : Rat) (o : TimedSt α) (s : SinceSt α) (
           revert han
           cases h4 : binUpdate (fun x y : α => pmin x y) an out1 out3 with
           | error e =>
-              rintro (han | ⟨rfl, andop', han⟩)
-              · left
-                apply exec_seq_err
-                exact exec_mcall2_err _ fuel _ _ _ _ _ _ (encSig out1) (encSig out3) _ _ st4 e (by simp [evalE])
-                  (by simp [evalE]) (by simp [a_and]) name_and_upd han
-              · right
-                refine ⟨rfl, ?_⟩
-                have e6 := exec_mcall2_ok (callAt (α := α) Gen.DenseOn.fns fuel 6) fuel "sample_result" "self.andop"
-                  "update" (.loc "out1") (.loc "out3")
-                  (setLoc "out3" (encSig out3) (setLoc "self.hist" hist'
-                    (setLoc "out2" (encSig out2) (setLoc "self.since" since'
-                      (setLoc "out1" (encSig out1) (setLoc "self.once" once' env2))))))
-                  (encSig out1) (encSig out3) _ _ st4 andop' (.list [.nan])
-                  (by simp [evalE]) (by simp [evalE]) (by simp [a_and]) name_and_upd han
-                rw [stAnd, exec_seq_ok _ _ e6]
-                rw [exec_stRet]
-                exact ⟨_, rfl⟩
+              intro han
+              apply exec_seq_err
+              exact exec_mcall2_err _ fuel _ _ _ _ _ _ (encSig out1) (encSig out3) _ _ st4 e (by simp [evalE])
+                (by simp [evalE]) (by simp [a_and]) name_and_upd han
           | ok r4 =>
               obtain ⟨an', out⟩ := r4
               rintro ⟨andop', hc4, rel4⟩
@@ -374,9 +357,7 @@ theorem gen_since_timed_build (fuel : Nat) (a b : Rat) :
 
 /-- (a) `SinceTimedOperation.update` against the clause of `stepOn` for `.tb2 .since a b` (`GOn.sinceTUpdate`), through
     `updateObj` (call depth 7): values and exceptions.  `hs`: the batch handed to the nested bounded-historically object in its
-    initial state does not start at time `inf` (the divergence of `gen_hist_timed_update`).  Where the mirror raises the
-    `TypeError` of `last = float('nan')`, `AndOperation.update` either raises it or returns `[nan]`, which `updateObj` does
-    not decode: `TypeError` as well. -/
+    initial state does not start at time `inf` (the divergence of `gen_hist_timed_update`). -/
 theorem gen_since_timed_updateObj (fuel : Nat) (a b : Rat) (o : TimedSt α) (s : SinceSt α) (h : TimedSt α) (an : BinSt α)
     (obj : DV α) (hrel : SinceTRel a b (o, s, h, an) obj) (sl sr : ASig α)
     (hs : h.rs = none → ∀ t v rest, (sinceUpdate s sl sr).2 = (t, v) :: rest → t ≠ .inf)
@@ -401,13 +382,10 @@ theorem gen_since_timed_updateObj (fuel : Nat) (a b : Rat) (o : TimedSt α) (s :
   revert hx
   cases hb : sinceTUpdate a b o s h an sl sr with
   | error e =>
-      rintro (hx | ⟨rfl, env', hx⟩)
-      · have := GOnBin.runFn_method_err _ fuel Gen.DenseOn.SinceTimedOperation_update rfl "SinceTimedOperation" store
-          [encSig sl, encSig sr] rfl e hx
-        simp only [updateObj, hd, hn, List.map_cons, List.map_nil, hcall, this]; rfl
-      · have := GOnBin.runFn_method_ret _ fuel Gen.DenseOn.SinceTimedOperation_update rfl "SinceTimedOperation" store
-          [encSig sl, encSig sr] rfl env' _ hx
-        simp only [updateObj, hd, hn, List.map_cons, List.map_nil, hcall, this]; simp [decSig]
+      intro hx
+      have := GOnBin.runFn_method_err _ fuel Gen.DenseOn.SinceTimedOperation_update rfl "SinceTimedOperation" store
+        [encSig sl, encSig sr] rfl e hx
+      simp only [updateObj, hd, hn, List.map_cons, List.map_nil, hcall, this]; rfl
   | ok r =>
       obtain ⟨st', out⟩ := r
       rintro ⟨env', once', since', hist', andop', lb', rb', hx, g1, q1, g2, q2, g3, q3, g4, q4, g5, g6⟩
